@@ -200,7 +200,25 @@ def run(prog: Program, chk: Check):
                  f"{f.qual}: field loop " + ("skips fields (continue/break); " if skips else "") + (f"does not read {sorted(need - reads)}" if need - reads else ""))
         # the emitted member mentions the field's own name
         if b != "parser":
+            def built_into_text(x):
+                """x is an operand of string building: f-string, %-formatting, str.format, + concatenation, join"""
+                a = getattr(x, "_parent", None)
+                while a is not None and not isinstance(a, ast.stmt):
+                    if isinstance(a, (ast.JoinedStr, ast.FormattedValue)):
+                        return True
+                    if isinstance(a, ast.BinOp) and isinstance(a.op, ast.Mod) and isinstance(a.left, ast.Constant) and isinstance(a.left.value, str):
+                        return True
+                    if isinstance(a, ast.BinOp) and isinstance(a.op, ast.Add):
+                        return True
+                    if isinstance(a, ast.Call) and isinstance(a.func, ast.Attribute) and a.func.attr in ("format", "join") and isinstance(a.func.value, ast.Constant):
+                        return True
+                    if isinstance(a, (ast.Compare, ast.Subscript)) or (isinstance(a, ast.Call) and not (isinstance(a.func, ast.Attribute) and a.func.attr in ("format", "join"))):
+                        return False
+                    a = getattr(a, "_parent", None)
+                return False
+
             emit_ok = any(isinstance(n, ast.FormattedValue) and norm(n.value) == f"{fv}.name" for sc_ in scope for n in walk_local(sc_)) or \
+                any(isinstance(n, ast.Attribute) and n.attr == "name" and path_of(n.value) == fv and isinstance(n.ctx, ast.Load) and built_into_text(n) for sc_ in scope for n in walk_local(sc_)) or \
                 any(isinstance(n, ast.FormattedValue) and isinstance(n.value, ast.Attribute) and n.value.attr == "name" and (k_, path_of(n.value.value)) in {(k2, p2) for (k2, _v2) in seen_h for p2 in [path_of(n.value.value)]}
                     for (k_, _v) in seen_h for fn_ in [next((m_ for m_ in f.cls.methods.values() if m_.key == k_), None)] if fn_ is not None for n in walk_local(fn_.node))
             F.decide(emit_ok, fkey(f, "emits-field-name"), where(f, lp), "member is emitted under field.name", f"{f.qual} does not emit members under field.name")
